@@ -91,7 +91,7 @@ func TestWorker(t *testing.T) {
 	if dl := envInt("VERIF_DEADLINE", 0); dl > 0 {
 		e.Deadline = time.Unix(int64(dl), 0)
 	}
-	byScenario := len(scs) >= 2*of
+	byScenario := len(scs) >= 8*of
 	if only := os.Getenv("VERIF_ONLY"); only != "" {
 		var f []*Scenario
 		for _, sc := range scs {
